@@ -311,7 +311,7 @@ func stdEntries(prefix, open string) []entry {
 	return l
 }
 
-func newServer(kind, name string, fns []fnSpec, nmw, roleKey int, style string) (*server, error) {
+func newServer(kind, name string, fns []fnSpec, nmw, roleKey int, style string, oneByOne bool) (*server, error) {
 	s := &server{kind: kind, name: name, fns: fns, nmw: nmw, roleKey: roleKey, style: style,
 		byNonce: map[string][]*obs{}, bySerial: map[int64]*obs{}, waiters: map[string]chan struct{}{}, claimed: map[int64]int{},
 		tools: stdEntries("t", echoTool), prompts: stdEntries("p", openPrompt), resources: stdEntries("r", openResource)}
@@ -330,7 +330,14 @@ func newServer(kind, name string, fns []fnSpec, nmw, roleKey int, style string) 
 	}
 	if kind != "sse" {
 		extra := []mcp.ServerOption{mcp.WithToolListFilter(s.toolFilter), mcp.WithPromptListFilter(s.promptFilter),
-			mcp.WithResourceListFilter(s.resourceFilter), mcp.WithMiddleware(mws...)}
+			mcp.WithResourceListFilter(s.resourceFilter)}
+		if oneByOne {
+			for _, m := range mws {
+				extra = append(extra, mcp.WithMiddleware(m))
+			}
+		} else if len(mws) > 0 {
+			extra = append(extra, mcp.WithMiddleware(mws...))
+		}
 		for _, f := range fns {
 			extra = append(extra, mcp.WithHTTPContextFunc(s.ctxFn(f)))
 		}
@@ -350,7 +357,14 @@ func newServer(kind, name string, fns []fnSpec, nmw, roleKey int, style string) 
 		return s, nil
 	}
 	opts := []mcp.SSEOption{mcp.WithSSEServerLogger(hk.QuietLogger{}), mcp.WithSSEToolListFilter(s.toolFilter),
-		mcp.WithSSEPromptListFilter(s.promptFilter), mcp.WithSSEResourceListFilter(s.resourceFilter), mcp.WithSSEMiddleware(mws...)}
+		mcp.WithSSEPromptListFilter(s.promptFilter), mcp.WithSSEResourceListFilter(s.resourceFilter)}
+	if oneByOne {
+		for _, m := range mws {
+			opts = append(opts, mcp.WithSSEMiddleware(m))
+		}
+	} else if len(mws) > 0 {
+		opts = append(opts, mcp.WithSSEMiddleware(mws...))
+	}
 	for _, f := range fns { // every registration overwrites the previous one: the last wins
 		opts = append(opts, mcp.WithSSEContextFunc(s.ctxFn(f)))
 	}
